@@ -83,6 +83,8 @@ def gen_history(run_seed: int, cfg: dict) -> dict:
             "form": r.choice(DATA_FORMS),
             "reuse": r.random() < 0.6,
         }
+        if r.random() < 0.22:
+            op["agg"] = r.choice([k for k in userlib.AGG_SPECS if k != "none"])
         if r.random() < p_abort:
             op["abort"] = int(10 ** r.uniform(0, 5.08))
         return op
@@ -113,7 +115,7 @@ def gen_history(run_seed: int, cfg: dict) -> dict:
                 ops.append({"op": "REVERT", "e": e})
                 n_reforms[e] -= 1
         elif k == "REPLACE":
-            variant = r.choice([*userlib.REPLACEMENTS, f"copy:{round(r.random(), 6)}", f"copy:{round(r.random(), 6)}"])
+            variant = r.choice([*userlib.REPLACEMENTS, f"copy:{round(r.random(), 6)}", f"copy:{round(r.random(), 6)}", f"derived:{round(r.random(), 6)}", f"derived:{round(r.random(), 6)}"])
             ops.append({"op": "REPLACE", "e": r.choice(handles), "variant": variant, "mode": r.choice(["dict", "list"])})
         elif k in ("ALIAS", "DEEPCOPY"):
             e2 = f"e{len(handles)}"
@@ -279,7 +281,19 @@ def outcome_of_setup(params, functions) -> dict:
 def call_compute(data, params, functions, targets, op):
     from sim.compare import run_call
 
-    return run_call(data, params, functions, targets=targets, rounding=op["rounding"], debug=op["debug"], check_minimal_specification=op["cms"])
+    kw = {}
+    if op.get("agg"):
+        g, p, extra = userlib.AGG_SPECS[op["agg"]]
+        # fresh dicts per call: they are caller-owned objects too (see run_session snapshots)
+        kw["aggregate_by_group_specs"] = op.get("_agg_objs", ({k: dict(v) for k, v in g.items()}, None))[0]
+        kw["aggregate_by_p_id_specs"] = op.get("_agg_objs", (None, {k: dict(v) for k, v in p.items()}))[1]
+        if targets is not None:
+            targets = sorted(set(targets) | set(extra))
+        else:
+            from gettsim import config
+
+            targets = sorted(set(config.DEFAULT_TARGETS) | set(extra))
+    return run_call(data, params, functions, targets=targets, rounding=op["rounding"], debug=op["debug"], check_minimal_specification=op["cms"], **kw)
 
 
 def rewrite_targets(op, functions: dict) -> list:
@@ -428,6 +442,11 @@ def run_session(history: dict, opts: dict | None = None) -> dict:
             prepared = None
             if kind == "COMPUTE" and op.get("e") in envs:
                 prepared = _get_data(op, pops, data_objs, history)
+                if op.get("agg"):
+                    g, p, _ = userlib.AGG_SPECS[op["agg"]]
+                    objs = ({k: dict(v) for k, v in g.items()}, {k: dict(v) for k, v in p.items()})
+                    op = {**op, "_agg_objs": objs}
+                    data_objs[f"aggspecs{i}/specs"] = list(objs)
             elif kind == "BADDATA" and op.get("e") in envs:
                 pk = op["pop"]
                 if pk not in pops:
@@ -476,8 +495,11 @@ def run_session(history: dict, opts: dict | None = None) -> dict:
                     else:
                         base = env.functions
                         newf, name = userlib.apply_replacement(_as_dict(base), op["variant"], op["mode"]) if isinstance(base, dict) else _replace_in_list(base, op)
-                        envs[op["e"]] = Env(env.box, newf, [*env.repl, {"variant": op["variant"], "mode": op["mode"], "name": name}])
-                        ev["resolved"] = name
+                        if name is None:
+                            ev["status"] = "skipped"
+                        else:
+                            envs[op["e"]] = Env(env.box, newf, [*env.repl, {"variant": op["variant"], "mode": op["mode"], "name": name}])
+                            ev["resolved"] = name
                 elif kind == "COMPUTE":
                     op_rec = {**op, "_i": i}
                     if "abort" not in op:
@@ -536,6 +558,10 @@ def _replace_in_list(base, op):
     if op["variant"].startswith("copy:"):
         name = userlib.resolve_name(merged, op["variant"][5:])
         f = userlib.identical_copy(merged[name])
+    elif op["variant"].startswith("derived:"):
+        name, f = userlib.resolve_derived(merged, op["variant"][8:])
+        if name is None:
+            return base, None
     else:
         name, f = userlib.REPLACEMENTS[op["variant"]]
     return [*base, {name: f}], name
@@ -630,6 +656,7 @@ def _do_compute(op, envs, prepared, history, ev) -> int:
         "rounding": op["rounding"],
         "debug": op["debug"],
         "cms": op["cms"],
+        "agg": op.get("agg"),
     }
     return lines
 
@@ -710,7 +737,10 @@ def run_references_batch(date: str, refs: list) -> list:
 def _apply_replacements(functions, repl):
     fa = functions
     for rp in repl:
-        variant = rp["variant"] if not rp["variant"].startswith("copy:") else "copy:" + rp["name"]
+        variant = rp["variant"]
+        for pre in ("copy:", "derived:"):
+            if variant.startswith(pre):
+                variant = pre + rp["name"]
         if isinstance(fa, dict):
             fa, _ = userlib.apply_replacement(fa, variant, rp["mode"])
         else:
